@@ -407,28 +407,29 @@ functions; stated here so that a change to either side is noticed. -/
 theorem marshalG2_is_codec (xi xr yi yr : Nat) :
     marshalG2 xi xr yi yr = Codec.marshalG2 (.aff ⟨xi, xr⟩ ⟨yi, yr⟩) := rfl
 
-/-- `decodePubKey` agrees with the codec model on every byte string (a short one is a slice panic in both) -/
+/-- `decodePubKey` agrees with the codec model on every byte string (a short one — `none` here — is the error
+"public key is the point at infinity" of /repo ae5b22f in the codec model, `.err .short`) -/
 theorem decodePubKey_is_codec (mar : Bytes) :
     Codec.decodePubKey mar =
       (match decodePubKey mar with
        | some v => .ok v
-       | none => .panic "slice bounds out of range") := by
+       | none => .err .short) := by
   by_cases h : mar.length < 129
-  · have h4 : ¬ (97 ≤ 129 ∧ 129 ≤ mar.length) := by omega
-    simp only [Codec.decodePubKey, Codec.sliceRange, decodePubKey, h, h4, if_true, if_false]
-    split <;> simp_all
-  · have h1 : (1 ≤ 33 ∧ 33 ≤ mar.length) := by omega
+  · have h' : mar.length < 32 * 4 + 1 := by omega
+    simp [Codec.decodePubKey, decodePubKey, h, h']
+  · have h' : ¬ mar.length < 32 * 4 + 1 := by omega
+    have h1 : (1 ≤ 33 ∧ 33 ≤ mar.length) := by omega
     have h2 : (33 ≤ 65 ∧ 65 ≤ mar.length) := by omega
     have h3 : (65 ≤ 97 ∧ 97 ≤ mar.length) := by omega
     have h4 : (97 ≤ 129 ∧ 129 ≤ mar.length) := by omega
-    simp [Codec.decodePubKey, Codec.sliceRange, decodePubKey, h, h1, h2, h3, h4, List.range, List.range.loop]
+    simp [Codec.decodePubKey, Codec.sliceRange, decodePubKey, h, h', h1, h2, h3, h4, List.range, List.range.loop]
 
-/-- `toBigInt` agrees with the codec model on every signature of at least 32 bytes.  (For a shorter one the
-code now returns (0, 0) — /repo 6bcc55e — which `toBigInt` models; `Codec.sigToBigInt` still has the slice panic.) -/
+/-- `toBigInt` agrees with the codec model on every signature of at least 32 bytes (and, since the codec model
+was resynchronised with /repo 6bcc55e, on shorter ones too: both give (0, 0)) -/
 theorem toBigInt_is_codec (sig : Bytes) (h : 32 ≤ sig.length) :
     Codec.sigToBigInt sig = .ok (toBigInt sig) := by
   have : ¬ sig.length < 32 := by omega
-  simp [Codec.sigToBigInt, toBigInt, h, this]
+  simp [Codec.sigToBigInt, toBigInt, this]
 
 example : Codec.decodePubKey (marshalG2 0 1 2 3) = .ok [0, 1, 2, 3] := by
   rw [decodePubKey_is_codec, marshal_roundtrip_pubkey 0 1 2 3 (by decide) (by decide) (by decide) (by decide)]
